@@ -341,6 +341,16 @@ struct timespec* sentTime) {
           m_currentRequest = startRequest;  // force the failed request to be notified
         }
       }
+      if (m_currentRequest != nullptr) {
+        // number of SYN to wait for before the next send try (the request is detached by setState() below, so the
+        // check of the arbitration in state bs_ready is not reached any more)
+        symbol_t ownSymbol = m_currentRequest->getMaster()[0];
+        m_remainLockCount = arbitrationState == as_lost && isMaster(recvSymbol) ? 2 : 1;
+        if (arbitrationState == as_lost && (recvSymbol & 0x0f) != (ownSymbol & 0x0f) && m_lockCount > m_remainLockCount) {
+          // if different priority class found, try again after N AUTO-SYN symbols (at least next AUTO-SYN)
+          m_remainLockCount = m_lockCount;
+        }
+      }
       setState(m_state, RESULT_ERR_BUS_LOST);
       break;
     case as_won:  // implies RESULT_OK
